@@ -463,6 +463,7 @@ def check(prop, tier, seed, replay=None):
     ]
     mutants = prop == "C14"
     if replay:
+        run.is_replay = True
         rp = json.load(open(replay))["replay"]
         if rp.get("kind") in ("codec-boundary", "codec-file-eq"):
             return check(prop, "quick", seed)   # these scenarios are cheap: the replay is the quick run itself
